@@ -1664,6 +1664,57 @@ func (m *Machine) callFn(st *State, fr *Frame, x *ssa.Call, fn *ssa.Function, ar
 			}
 		}
 	}
+	if (name == "(*sync.Pool).Get" || name == "(*sync.Pool).Put") && len(args) >= 1 {
+		// a pool that reuses as eagerly as it can: Get hands back the object Put last (so that an object still
+		// referenced by an earlier result and recycled too early is seen to change), and calls New when it is empty.
+		// The recycled objects hang off the pool's private `local` field.
+		if pp, ok := args[0].(Ptr); ok {
+			if pv, ok := st.load(pp); ok {
+				if sv, isS := pv.(*StructV); isS {
+					pt := types.NewPointer(types.Typ[types.Int])
+					_ = pt
+					sT, _ := fn.Signature.Recv().Type().(*types.Pointer).Elem().Underlying().(*types.Struct)
+					li, ni := -1, -1
+					if sT != nil {
+						li, ni = fieldIndex(sT, "local"), fieldIndex(sT, "New")
+					}
+					if li >= 0 && ni >= 0 && len(sv.F) == sT.NumFields() {
+						var items *ArrayV
+						if ip, isPtr := sv.F[li].(Ptr); isPtr {
+							if io, has := st.Heap[ip.Obj]; has {
+								items, _ = io.V.(*ArrayV)
+							}
+						}
+						if items == nil {
+							items = &ArrayV{}
+							id := st.alloc(types.NewArray(types.NewInterfaceType(nil, nil), 0), items)
+							sv.F[li] = Ptr{Obj: id}
+						}
+						if name == "(*sync.Pool).Put" {
+							if _, isNil := args[1].(nilV); !isNil {
+								items.E = append(items.E, cloneVal(args[1]))
+							}
+							return finish([]Val{nil})
+						}
+						if n := len(items.E); n > 0 {
+							x := items.E[n-1]
+							items.E = items.E[:n-1]
+							return finish([]Val{x})
+						}
+						if fv, ok := sv.F[ni].(*FuncV); ok {
+							if f, ok := fv.Fn.(*ssa.Function); ok && f.Blocks != nil && inRepoOrRef(f) {
+								st.push(f, nil, fv.Bind)
+								return nil
+							}
+						}
+						if _, isNil := sv.F[ni].(nilV); isNil {
+							return finish([]Val{nilV{}})
+						}
+					}
+				}
+			}
+		}
+	}
 	if name == "(*sync.Once).Do" && len(args) == 2 {
 		// the first Do on a Once runs f in place of the call, later ones do nothing
 		if op, ok := args[0].(Ptr); ok {
